@@ -94,7 +94,7 @@ def h_blocks_rephase(ctx, skel, swap):
     ctx.tag("rephase")
 
 
-def h_rescale_rephase(ctx, layout, segsites):
+def h_rescale_rephase(ctx, layout, segsites, nan_first=False):
     """infer (flip) + rescale prefix on two input phasings of the same singletons: the counts
     used for rescaling are identical (the input phase is forgotten)."""
     from symx.dom import sym, Q
@@ -103,7 +103,7 @@ def h_rescale_rephase(ctx, layout, segsites):
     for variant in (0, 1):
         # variant 1 moves every singleton to the other edge of its block in the INPUT
         mv = [(b, e) if variant == 0 else (b, {0: 1, 1: 0, 2: 3, 3: 2}[e]) for b, e in muts]
-        used = _run_prefix(ctx, mv, segsites)
+        used = _run_prefix(ctx, mv, segsites, nan_first)
         if used is None:
             return
         outs.append(used)
@@ -113,7 +113,7 @@ def h_rescale_rephase(ctx, layout, segsites):
     ctx.tag("rescale-rephase")
 
 
-def _run_prefix(ctx, muts, segsites):
+def _run_prefix(ctx, muts, segsites, nan_first=False):
     from symx.dom import sym
     nm = len(muts) + 1
     with ep_h.patched_ep(more=("phasing", "rescaling")) as (var, approx, npx):
@@ -145,6 +145,9 @@ def _run_prefix(ctx, muts, segsites):
         def prop_mut(order, post, phase, *a):
             if a[-1]:
                 for m in order:     # fitted phase: a function of the block data only
+                    if nan_first and int(m) == 0:
+                        phase[m] = math.nan     # projection rejected numerically
+                        continue
                     p = sym(f"phase{m}", "nonneg")
                     ctx.assume(p <= 1)
                     phase[m] = p
@@ -179,6 +182,8 @@ def cases(tier):
         for seg in (False, True):
             cs.append(Case(f"rescale:{lay}:seg{int(seg)}", h_rescale_rephase,
                            dict(layout=lay, segsites=seg)))
+            cs.append(Case(f"rescale:{lay}:seg{int(seg)}:nan", h_rescale_rephase,
+                           dict(layout=lay, segsites=seg, nan_first=True)))
     return cs
 
 
@@ -206,7 +211,7 @@ def run(tier, seed, t0):
         stubs=["iterate / propagate_mutations replaced on the instance; rescale cut after "
                "reallocate_unphased"],
         assumptions=["EP's block updates depend on the input only through block_likelihoods / "
-                     "block_nodes (proved input-phase invariant here)", "fitted phases not NaN"],
+                     "block_nodes (proved input-phase invariant here)", "at most the first singleton has an undefined (NaN) fitted phase"],
         out_of_scope=["numerical symmetry of the unphased moment functions in floating point"],
         validated=npx.validate(),
         expect_tags=["rephase", "rescale-rephase"],
@@ -236,4 +241,17 @@ def replay(payload):
             p = tsdate.date(A, mutation_rate=0.1, singletons_phased=True)
             if not np.array_equal(p.mutations_node, A.mutations_node):
                 bad.append((name, "phased run moved mutations"))
+    # an input on which some fitted phases are undefined (NaN): placement and times must still
+    # not depend on the input phase
+    A = c23._undefined_phase_input()
+    which = [int(m) for m in np.flatnonzero(A.mutations_node == 1)[:40]]
+    B = _swap_phase(A, which)
+    for ri in (0, 3):
+        a = tsdate.date(A, mutation_rate=1e-8, singletons_phased=False, rescaling_intervals=ri)
+        b = tsdate.date(B, mutation_rate=1e-8, singletons_phased=False, rescaling_intervals=ri)
+        if not np.array_equal(a.mutations_node, b.mutations_node):
+            bad.append(("undefined_phase", ri, "mutation nodes depend on the input phase",
+                        int(np.sum(a.mutations_node != b.mutations_node))))
+        if not np.allclose(a.nodes_time, b.nodes_time, rtol=1e-6):
+            bad.append(("undefined_phase", ri, "node times depend on the input phase"))
     return bool(bad), str(bad[:3])
